@@ -38,6 +38,10 @@ type c04prog struct {
 	// Final: the last payment also finalises the channel (the final state must reach the watcher
 	// like every other one).
 	Final bool
+	// SubNew: the adversary registers the parent's OLD version together with the NEWEST
+	// sub-channel state it holds (possibly still in flight to H), not the oldest one: H's
+	// refutation with the sub-channel state it knows may then be refused by the ledger
+	SubNew bool
 }
 
 func (p c04prog) name() string {
@@ -56,6 +60,9 @@ func (p c04prog) name() string {
 	}
 	if p.Final {
 		n += "/final"
+	}
+	if p.SubNew {
+		n += "/subnew"
 	}
 	return n
 }
@@ -145,10 +152,15 @@ func c04exec(t *testing.T, ssc schedrun.Scenario, o vsched.Options) (*vsched.Sch
 			})
 			tx := find(ca.ID(), target)
 			var subs []channel.SignedState
-			if pr.Sub { // the oldest sub-channel state A holds
+			if pr.Sub { // the oldest sub-channel state A holds (SubNew: the newest)
 				st := find(sub0.ID(), 0)
+				if pr.SubNew {
+					for v := uint64(1); find(sub0.ID(), v) != nil; v++ {
+						st = find(sub0.ID(), v)
+					}
+				}
 				subs = []channel.SignedState{{Params: sub0.Params(), State: st.State, Sigs: st.Sigs}}
-				obs.advSubV = 0
+				obs.advSubV = int64(st.State.Version)
 			}
 			w.tick()
 			obs.advAt = w.clock
@@ -174,7 +186,7 @@ func c04exec(t *testing.T, ssc schedrun.Scenario, o vsched.Options) (*vsched.Sch
 			vsched.Send(advDone, struct{}{})
 		})
 		for i := 0; i < pr.Updates; i++ {
-			if pr.Sub && i == 0 {
+			if pr.Sub && i == 0 && !pr.SubNew {
 				// one payment inside the sub-channel first: its newest state must be registered too
 				if err := sub0.Update(ctx, pay(0, 1, false)); err != nil {
 					obs.errs = append(obs.errs, "sub payment: "+classify(err))
@@ -187,6 +199,13 @@ func c04exec(t *testing.T, ssc schedrun.Scenario, o vsched.Options) (*vsched.Sch
 			ucancel()
 			if err != nil {
 				obs.errs = append(obs.errs, fmt.Sprintf("(payment %d: %s)", i, classify(err)))
+			}
+		}
+		if pr.Sub && pr.SubNew {
+			// the payment inside the sub-channel comes LAST: it is the update in flight when the
+			// adversary registers the parent's old version together with the sub-channel's newest state
+			if err := sub0.Update(ctx, pay(0, 1, false)); err != nil {
+				obs.errs = append(obs.errs, "(sub payment: "+classify(err)+")")
 			}
 		}
 		vsched.Recv(advDone)
@@ -240,6 +259,9 @@ func c04check(ssc schedrun.Scenario, s *vsched.Sched, o any) []schedrun.Verdict 
 	}
 	if pr.Final {
 		site += "/final"
+	}
+	if pr.SubNew {
+		site += "/subnew"
 	}
 	var out []schedrun.Verdict
 	seen := map[string]bool{}
@@ -336,6 +358,7 @@ func c04programs(thorough bool) []c04prog {
 	out = append(out, c04prog{Updates: 1, J: 0, Late: true}, c04prog{Updates: 2, J: 0, Late: true}, c04prog{Updates: 2, J: 1, Late: true})
 	out = append(out, c04prog{Updates: 1, J: 0, Late: true, FromStart: true})
 	out = append(out, c04prog{Updates: 1, J: 0, Sub: true, Late: true})
+	out = append(out, c04prog{Updates: 1, J: 0, Sub: true, Late: true, SubNew: true}, c04prog{Updates: 2, J: 0, Sub: true, Late: true, SubNew: true})
 	out = append(out, c04prog{Updates: 1, J: 0, Late: true, Final: true}, c04prog{Updates: 2, J: 1, Late: true, Final: true}, c04prog{Updates: 2, J: 0, Final: true})
 	if thorough {
 		out = append(out, c04prog{Updates: 2, J: 0, Sub: true}, c04prog{Updates: 2, J: 1, Sub: true})
